@@ -55,8 +55,8 @@ def replay_values(rec) -> dict:
     for p in range(pool.npoints):
         betas = beta_dict(pool, p)
         want = [exp[r][p] for r in rows]
-        if any(w is None for w in want):
-            continue
+        if any(w is None or abs(w) > 1e60 for w in want):
+            continue      # undefined or overflowing: outside the property's domain
         got = {}
         got['get_value_c'] = np.asarray(shared.get_value_c(database=DB, betas=betas, prepare_ids=True), dtype=float)
         got['get_value_c(tree)'] = np.asarray(tree.get_value_c(database=DB, betas=betas, prepare_ids=True), dtype=float)
@@ -117,6 +117,10 @@ def _cmp_vec(mism, path, p, label, got, want, rel=1e-8):
                          got_all=got.tolist(), want_all=want.tolist()))
 
 
+def _huge(*arrays, limit=1e60) -> bool:
+    return any(np.size(a) and float(np.max(np.abs(a))) > limit for a in arrays)
+
+
 def replay_derivatives(rec) -> dict:
     """C02 on one differentiable DAG."""
     pool = POOL
@@ -142,8 +146,8 @@ def replay_derivatives(rec) -> dict:
         f = np.array([vals[r][p] for r in rows])
         g = np.array([jets[r][p][0] for r in rows])[:, occ]
         h = np.array([jets[r][p][1] for r in rows])[:, occ, :][:, :, occ]
-        if not (np.all(np.isfinite(g)) and np.all(np.isfinite(h))):
-            continue
+        if not (np.all(np.isfinite(g)) and np.all(np.isfinite(h))) or _huge(f, g, h):
+            continue      # overflow is outside the property's domain
         bh = np.einsum('ri,rj->rij', g, g)
         # disaggregate
         d = e.get_value_and_derivatives(betas=betas, database=DB, gradient=True, hessian=True, bhhh=True,
@@ -238,7 +242,7 @@ def replay_biogeme_derivatives(rec) -> dict:
         f = np.array([vals[r][p] for r in rows])
         g = np.array([jets[r][p][0] for r in rows])[:, occ]
         h = np.array([jets[r][p][1] for r in rows])[:, occ, :][:, :, occ]
-        if not (np.all(np.isfinite(g)) and np.all(np.isfinite(h))):
+        if not (np.all(np.isfinite(g)) and np.all(np.isfinite(h))) or _huge(f, g, h):
             continue
         bh = np.einsum('ri,rj->rij', g, g)
         for scaled in (False, True):
